@@ -161,8 +161,9 @@ impl Query {
 
     pub fn calc(&self) -> HashSet<Box<[u8]>> {
         let mut result = HashSet::new();
-        for cond in self.conds.iter() {
-            if result.is_empty() {
+        for (index, cond) in self.conds.iter().enumerate() {
+            // an empty result of the conditions so far is a result, not "no constraint"
+            if index == 0 {
                 result = cond.result.clone();
             } else {
                 result = result
